@@ -346,13 +346,20 @@ def _equality(g, s1, ra, lab, card, st, case):
     for perm in permutations(s1):
         rb = ra.reorder(perm)
         # state permutation of the first variable of perm (reverse order) -- same function
-        for rev in (False, True):
+        for rev in (False, True, "rot"):
             names = {v: list(lab.states[v]) for v in perm}
             order = {v: list(range(card[v])) for v in perm}
-            if rev:
+            if rev is True:
                 v0 = perm[0]
                 order[v0] = order[v0][::-1]
                 names[v0] = names[v0][::-1]
+            elif rev == "rot":
+                # a cyclic shift of the state list of EVERY variable (not self-inverse for three or more states)
+                if max(card[v] for v in perm) < 3:
+                    continue
+                for v in perm:
+                    order[v] = order[v][1:] + order[v][:1]
+                    names[v] = names[v][1:] + names[v][:1]
             vals = []
             for stt in product(*[order[v] for v in perm]):
                 vals.append(float(rb.table[stt]))
